@@ -306,7 +306,7 @@ PROPS["C18"] = {
     "level_note": "One fault per event (pairs of faults are outside the quick bound); fault sites = every redirected call the event reaches (read, write, writev, epoll_ctl, close, accept); errno set {ECONNRESET, EPIPE, ETIMEDOUT, EBADF, ENOMEM, EINVAL, ENOBUFS (+EINTR mapped)}; epoll_wait EINTR belongs to the Polling loop (C03). Trusted: go/ssa lowering, SSA->SMT translation, z3, ghost kernel.",
     "design_ref": "DESIGN.md section 5 (loop-step family, C18)",
     "explanation": "Real framework code from go/ssa over the ghost kernel with fault injection.",
-    "bounds": {"faults_per_event": 1, "events": "readable+reply write / writable flush / async write(v) task / accept (both reactor modes)"},
+    "bounds": {"faults_per_event": "1 (2 in the reactor-batch harness)", "events": "readable+reply write / writable flush / async write(v) task / accept (both reactor modes) / close sequence for three causes / farewell write inside OnClose / one epoll_wait batch of two readable connections through the real run()+Polling"},
     "outside": ["pairs of faults", "epoll_wait failures"],
     "assumptions": ["ghost kernel contract"],
     "units": [dict(_LOOP_COMMON, name="loop-fault", files=["harness/gnet/vloop_world.go", "harness/gnet/c14_pick.go", "harness/gnet/c18_fault.go"], cfg={"vcfg": {"nodes": 1}})],
